@@ -123,6 +123,21 @@ pub fn plan_for(prop: &str, tier: Tier, seed: u64, verif_dir: &str) -> Option<Pl
 			probes: vec![],
 			exhaustive: false,
 		},
+		"C08" => Plan {
+			property: "C08".into(),
+			tier,
+			seed,
+			jobs: vec![job("lnsim", "deadlines", n(600, 20000))],
+			level: "exploration".into(),
+			rule: "profile `deadlines`: 3 real nodes, direct and forwarded payments (dust and non-dust, MPP), claims and fail-backs by the recipient at seeded moments relative to the advertised claim_deadline, while the chain advances up to ~400 blocks past HTLC expiries and one peer is gone for good (its node never returns) or cut off from the network and possibly healed later. Blocks are processed one at a time under the environment the property assumes: every live node sees each block when it is mined, responsive connected peers exchange all pending messages, monitor writes complete and broadcast transactions confirm within the block (T1-T3 at one block). Oracles: C08-3 after each fully processed block no channel a node still treats as open carries an outbound HTLC (known to a commitment) with expiry + LATENCY_GRACE_PERIOD_BLOCKS(3) <= height, nor an inbound HTLC the application claimed more than a block ago with expiry <= height + CLTV_CLAIM_BUFFER(36); C08-4 a ChannelClosed with reason HTLCsTimedOut is only reported when some HTLC of that channel had reached one of these deadlines (no early close); C08-5 a channel whose two peers were responsive throughout is never closed for an HTLC timeout (the upstream HTLC of a forward to a silent peer is failed back in time); C08-2 claim_funds called strictly below claim_deadline produces PaymentClaimed; C04-1 PaymentClaimable always leaves a claim window; wealth oracle after liquidation for every node that was not gone (a silent peer costs at most the HTLC's own channel, never the upstream HTLC). One evaluation = one seeded run (config, schedule and faults all drawn from the run seed; replay executes the recorded action trace). non-trivial = at least one payment reached a terminal event or one fault fired; distinct = distinct FNV hash of the executed (action kind, actor) sequence.".into(),
+			assumptions: t_assumptions.clone(),
+			probes: vec![
+				"channel_closed_for_htlc_timeout".into(),
+				"outbound_htlc_one_block_before_forced_close".into(),
+				"claimed_one_block_below_deadline".into(),
+			],
+			exhaustive: false,
+		},
 		"C09" => Plan {
 			property: "C09".into(),
 			tier,
